@@ -117,17 +117,34 @@ def make_env(kind: str, templates: dict[str, str], counter: list[int], root: str
         def get_source(self, env, template_name, *, context=None, **kwargs):  # noqa: ANN001
             src = super().get_source(env, template_name, context=context, **kwargs)
 
+            loader = self
+
             async def uptodate() -> bool:
                 counter[0] += 1
                 await sched.Gate(("uptodate", template_name))
-                return True
+                # `stale` names report "modified" (as after an edit of the source)
+                return template_name not in getattr(loader, "stale", ())
 
             return src._replace(uptodate=uptodate)
+
+        async def get_source_async(self, env, template_name, *, context=None, **kwargs):  # noqa: ANN001
+            if getattr(self, "slow", False):
+                counter[0] += 1
+                await sched.Gate(("load", template_name))
+            return self.get_source(env, template_name, context=context, **kwargs)
 
     if kind == "dict":
         loader: Any = DictLoader(templates)
     elif kind == "gated-uptodate":
         loader = GatedUptodateLoader(templates)
+    elif kind == "gated-stale":
+        loader = GatedUptodateLoader(templates)
+        loader.stale = set(templates)
+    elif kind == "gated-stale-slow":
+        # stale entries AND a source read that suspends: reloads overlap
+        loader = GatedUptodateLoader(templates)
+        loader.stale = set(templates)
+        loader.slow = True
     elif kind == "gated":
         loader = GatedDictLoader(templates)
     elif kind == "caching":
@@ -148,7 +165,7 @@ def make_env(kind: str, templates: dict[str, str], counter: list[int], root: str
     return Environment(loader=loader, **(env_kwargs or {}))
 
 
-DICT_KINDS = ["dict", "gated", "caching", "caching-ns", "gated-caching", "gated-uptodate"]
+DICT_KINDS = ["dict", "gated", "caching", "caching-ns", "gated-caching", "gated-uptodate", "gated-stale", "gated-stale-slow"]
 FS_KINDS = ["fs", "caching-fs", "choice"]
 
 
@@ -190,6 +207,15 @@ def subdir_rename(case: dict[str, Any]) -> tuple[str, dict[str, str]]:
     return rw(case["template"]), {mapping[n]: rw(s) for n, s in tpls.items()}
 
 
+ANALYSIS_ONLY: list[dict[str, str]] = [
+    {"root": "{% assign theme = 'dark' %}{% render 'panel', title: 'x' %}{{ currency }}",
+     "panel": "{% include 'panel_body' %}{{ title }}", "panel_body": "{{ theme }}{{ title }}{{ missing }}{% assign currency = 1 %}"},
+    {"root": "{% render 'setup' %}{{ currency }}", "setup": "{% include 'inc' %}", "inc": "{% assign currency = 'x' %}{{ rate }}"},
+    {"root": "{% assign theme = 1 %}{% render 'rp' %}", "rp": "{% extends 'lay' %}{% block b %}{{ theme }}{% endblock %}",
+     "lay": "<{% block b %}{% endblock %}{{ theme }}{% include 'foot' %}>", "foot": "{{ theme }}{{ year }}"},
+    {"root": "{% for i in xs %}{% render 'a', n: i %}{% endfor %}", "a": "{% include 'b' with n as m %}", "b": "{{ m }}{{ i }}{{ n }}{{ g }}"},
+]
+
 FIXTURES: list[tuple[str, dict[str, str], dict[str, Any]]] = [
     ("{% extends 'layouts/base.html' %}{% block content %}Hi {{ user.name }} {{ block.super }}{% endblock %}",
      {"layouts/base.html": "<{% block title %}{{ site.title }}{% endblock %}|{% block content %}base {{ user.id }}{% endblock %}>"},
@@ -214,6 +240,17 @@ FIXTURES: list[tuple[str, dict[str, str], dict[str, Any]]] = [
     ("{{ a.b.c | default: d.e }}{% if a.b.c == d.e or a.x %}t{% endif %}{% case a.b.c %}{% when d.e %}w{% else %}e{% endcase %}"
      "{{ a.b.c if d.e else a.x || append: d.e }}{{ ys | map: 'k' | join: ',' }}{{ ys | where: 'k', a.b.c | size }}",
      {}, {"a": {"b": {"c": 5}, "x": None}, "d": {"e": 5}, "ys": [{"k": 5}, {"k": 6}]}),
+    ("{% include 'card' with products[1], products: featured, label: 'x' %}{% include 'row' with rows, rows: other %}"
+     "{% include 'row' for rows, rows: other %}{% include 'row' with rows.last as row, rows: other %}"
+     "{% render 'card' with products[1], products: featured, label: 'y' %}{% render 'row' for rows, rows: other %}",
+     {"card": "[{{ card.t }}|{{ label }}]", "row": "<{{ row }}>"},
+     {"products": [{"t": "A"}, {"t": "B"}], "featured": [{"t": "F0"}, {"t": "F1"}], "rows": [1, 2, 3], "other": [7, 8, 9]}),
+    ("{% assign theme = 'dark' %}{% render 'panel', title: 'x' %}{{ currency }}{% render 'setup' %}{{ currency }}",
+     {"panel": "{{ title }}{% render 'panel_body', title: title %}", "panel_body": "{{ theme }}{{ title }}{{ missing.deep }}",
+      "setup": "{% render 'money' %}", "money": "{% assign currency = 'EUR' %}{{ currency }}{{ rate | times: 2 }}"},
+     {"rate": 2}),
+    ("{% render 'rp' %}", {"rp": "{% extends 'lay' %}{% block b %}{{ theme }}{{ inner }}{% endblock %}",
+                           "lay": "<{% block b %}{% endblock %}{{ theme | upcase }}>"}, {"theme": "t"}),
     ("{% for i in xs.items %}[{{ i.v }}{% render 'p/brk', v: i.v %}]{% endfor %} done",
      {"p/brk": "{% if v > 1 %}{% break %}{% endif %}{{ v }}"}, {"xs": {"items": [{"v": 1}, {"v": 2}, {"v": 3}]}}),
     ("{% for i in xs.items %}[{{ i.v }}{% render 'p/cnt', v: i.v %}]{% endfor %} done",
@@ -499,12 +536,12 @@ def shards(tier: str, seed: int) -> list[dict[str, Any]]:
 def floors(tier: str) -> dict[str, int]:
     k = 1 if tier == "quick" else 15
     return {"sync_async_pairs": 1000 * k, "schedules_explored": 2000 * k, "schedule_sets_exhaustive": 50 * k,
-            "get_template_pairs": 200 * k, "analyze_pairs": 100 * k, "set:loader_kinds": 9, "error_pairs": 50 * k,
+            "get_template_pairs": 200 * k, "analyze_pairs": 100 * k, "set:loader_kinds": 11, "error_pairs": 50 * k,
             "load_render_schedules": 300 * k}
 
 
 def gen_case(rng: random.Random) -> tuple[str, dict[str, str], dict[str, Any], Gen]:
-    g = Gen(rng, Profile(partial_prefix="snippets/", partial_suffix=".html", partial_interrupts=True))
+    g = Gen(rng, Profile(partial_prefix="snippets/", partial_suffix=".html", partial_interrupts=True, partial_kw_shadow=True))
     prog = g.program()
     em = E.emit(prog, E.Layout(random.Random(rng.random()), p_marker=0.1, alt_forms=True))
     return em.source, em.partials, g.data(), g
@@ -528,7 +565,11 @@ def run_shard(spec: dict[str, Any], ctx: Ctx) -> None:
                 for kind in DICT_KINDS + FS_KINDS:
                     w.differential(src, dict(tpls), data, kind, "fixture")
                     if tpls:
-                        w.template_ops(dict(tpls), data, kind)
+                        # the root is served by the loader too, so that it is analysed
+                        w.template_ops({**tpls, "root__": src}, data, kind)
+            for tset in ANALYSIS_ONLY:
+                for kind in DICT_KINDS + FS_KINDS:
+                    w.template_ops(dict(tset), {}, kind)
             ctx.sample({"kind": "corpus", "source": src, "templates": tpls})
         elif spec["kind"] == "gen":
             for _ in range(spec["per"]):
@@ -560,7 +601,7 @@ def run_shard(spec: dict[str, Any], ctx: Ctx) -> None:
                     # concurrent loads of one cached template with different globals
                     gl = [{"who": {"name": n}, "n": {"v": i}} for i, n in enumerate(["alice", "bob", "carol"][: rng.choice([2, 3])])]
                     lt = {"page": "Hello {{ who.name }} {{ n.v }}{% include 'part' %}", "part": "[{{ who.name }}]"}
-                    load_render_jobs(w, "page", lt, gl, rng.choice(["gated-uptodate", "gated-caching", "caching"]))
+                    load_render_jobs(w, "page", lt, gl, rng.choice(["gated-uptodate", "gated-stale", "gated-stale-slow", "gated-stale-slow", "gated-caching", "caching"]))
             ctx.sample({"kind": "schedule-set", "source": src, "templates": tpls, "datas": datas, "loader": kind})
     finally:
         w.close()
